@@ -962,7 +962,16 @@ def discharge_by_guard(s):
             pa = op_place(a)
             if pa is None or pa["p"]:
                 continue
-            for (_, _, kind, payload) in b.defs().get(pa["l"], []):
+            la = pa["l"]
+            for _ in range(6):  # through named locals / moves: `let cycles = x / p; p * cycles`
+                ds = b.defs().get(la, [])
+                if len(ds) == 1 and ds[0][2] == "assign" and ds[0][3]["rv"]["k"] == "use":
+                    nxt = op_place(ds[0][3]["rv"]["a"][0])
+                    if nxt is not None and not nxt["p"]:
+                        la = nxt["l"]
+                        continue
+                break
+            for (_, _, kind, payload) in b.defs().get(la, []):
                 if kind == "assign" and payload["rv"]["k"] == "bin" and payload["rv"]["op"] == "Div" and _same_value(b, payload["rv"]["a"][1], o):
                     return "guard: (x / p) * p cannot exceed x"
     if s.kind == "assert" and s.what in ("DivisionByZero", "RemainderByZero"):
@@ -1143,6 +1152,8 @@ def run_scope(prog, rep, P, taint, entry_shorts, tag="", audited=None, extra_sco
             kind = ":".join(parts[:2])
         elif parts[0] == "panic":
             kind = "panic"
+        if kind in ("assert:DivisionByZero", "assert:RemainderByZero"):
+            kind = "assert:zero-divisor"  # `x / p * p` and `x - x % p` stand under the same assumption about p
         return fn, kind
 
     spare = {}
